@@ -15,6 +15,25 @@ storage-log entries and lock-layer entries that step produced and the states of 
 its own log in execution order.  The virtual clock is the parent's (sent with every step).  Blocking on the metadata lock
 and its release cross the process boundary through the log (`LockRel` seen in a worker's entries unblocks everybody).
 
+PROCESS FAMILIES (case["fork"]).  The workers above are SPAWNED: fresh interpreters that open their own table handles.
+The other way a second writer process comes into being is fork(): a parent process opens the table, USES it (its
+handle has taken and released the metadata lock at least once), then forks workers which go on using the handle they
+INHERITED -- multiprocessing's 'fork' start method, a pre-forking server.  What a forked worker inherits is the handle
+object AND every descriptor the parent had open at that moment: parent and child then share the open file description
+behind it (Model/ProcLock.v `LFork`), and an flock belongs to the description.
+
+    case["fork"] = {"root": [0], "children": [[1], [2]], "handles": "shared"}
+                                      the family's parent process runs actor 0; it forks two workers (after the handles
+                                      were used once, before any actor starts) running actors 1 and 2.  "shared": one
+                                      table handle opened by the parent, used by every actor of the family (in the
+                                      process it lives in: the original or an inherited copy; actors of one process are
+                                      threads sharing it).  "own": one handle per actor, all opened and used by the
+                                      parent before the fork.
+A clean fork-server process (spawned once, never runs library code that starts threads) forks the family's parent for each
+case; the parent forks the workers; requests are relayed down the family's pipes, so the harness still steps one actor
+at a time and merges one log.  The lock-layer trace carries the parent's lock-file primitives before the fork (actor
+"setup") and one `fork` entry per worker.
+
 `run_case` mirrors protocol.run_case for the local backend (same template table, same CaseResult), so the same oracles,
 projections and choosers apply to its results.
 """
@@ -94,22 +113,9 @@ def worker_main(conn: Any) -> None:
             elif cmd == "step":
                 _c, name, clock_ms = msg
                 assert sc is not None
-                sc.clock_ms = clock_ms
-                a = sc.actors[name]
-                if a.state == "blocked":
-                    a.state = "parked"          # the parent saw what it waits for being released (possibly in another process)
-                n0, l0 = len(sc.log), len(sc.locklog)
-                try:
-                    sc.step(name)
-                except S.Deadlock as e:
-                    conn.send(("deadlock", str(e)))
-                    continue
-                # entries shipped earlier whose operation has returned meanwhile (an actor parked INSIDE an operation, e.g. at
-                # the flock inside a lock attempt): their final content is sent again, by index
-                updates = [(i, _clean([sc.log[i]])[0]) for i in pending if sc.log[i].get("result") is not None]
-                pending = [i for i in pending if sc.log[i].get("result") is None] + \
-                          [i for i in range(n0, len(sc.log)) if sc.log[i].get("result") is None]
-                conn.send(("ok", _clean(sc.log[n0:]), list(sc.locklog[l0:]), _states(sc), n0, updates))
+                conn.send(_serve_step(sc, pending, name, clock_ms))
+            elif cmd == "fcase":
+                _family_relay(conn, msg)
             elif cmd == "end":
                 if sc is not None:
                     sc.kill_remaining()
@@ -125,6 +131,203 @@ def worker_main(conn: Any) -> None:
                 conn.send(("error", traceback.format_exc()[-1500:] or repr(e)))
             except Exception:           # noqa: BLE001
                 break
+
+
+
+def _serve_step(sc: S.Scheduler, pending: List[int], name: str, clock_ms: int) -> tuple:
+    """Run actor `name` of this process to its next yield point; the reply carries what that step logged."""
+    sc.clock_ms = clock_ms
+    a = sc.actors[name]
+    if a.state == "blocked":
+        a.state = "parked"          # the parent saw what it waits for being released (possibly in another process)
+    n0, l0 = len(sc.log), len(sc.locklog)
+    try:
+        sc.step(name)
+    except S.Deadlock as e:
+        return ("deadlock", str(e))
+    # entries shipped earlier whose operation has returned meanwhile (an actor parked INSIDE an operation, e.g. at
+    # the flock inside a lock attempt): their final content is sent again, by index
+    updates = [(i, _clean([sc.log[i]])[0]) for i in pending if sc.log[i].get("result") is not None]
+    pending[:] = [i for i in pending if sc.log[i].get("result") is None] + \
+                 [i for i in range(n0, len(sc.log)) if sc.log[i].get("result") is None]
+    return ("ok", _clean(sc.log[n0:]), list(sc.locklog[l0:]), _states(sc), n0, updates, os.getpid())
+
+
+# ---- process families: a parent that has used its table handle forks workers which inherit it
+def _recv(c: Any, timeout: float, what: str) -> tuple:
+    if not c.poll(timeout):
+        raise S.Deadlock(f"{what}: no answer within {timeout:.0f}s")
+    return c.recv()
+
+
+def _family_relay(conn: Any, msg: tuple) -> None:
+    """Fork-server side: fork the family's parent process for this case and relay the harness's requests to it until the
+    case ends.  This process itself stays as it was (single-threaded)."""
+    pconn, cconn = mp.Pipe()
+    pid = os.fork()
+    if pid == 0:
+        code = 0
+        try:
+            pconn.close()
+            conn.close()
+            _family_root_main(cconn, msg)
+        except BaseException:       # noqa: BLE001
+            code = 1
+        finally:
+            os._exit(code)
+    cconn.close()
+    try:
+        m = msg
+        while True:
+            try:
+                r = _recv(pconn, STEP_TIMEOUT_S, f"family parent process {pid}")
+            except (EOFError, OSError) as e:
+                r = ("error", f"family parent process {pid} died: {e!r}")
+            except S.Deadlock as e:
+                r = ("error", str(e))
+            conn.send(r)
+            if m[0] == "end" or r[0] == "error":
+                break
+            m = conn.recv()
+            pconn.send(m)
+    finally:
+        pconn.close()
+        try:
+            os.kill(pid, 9)
+        except OSError:
+            pass
+        try:
+            os.waitpid(pid, 0)
+        except OSError:
+            pass
+
+
+def _family_root_main(conn: Any, msg: tuple) -> None:
+    """The family's parent process (forked from the fork server for one case): opens the table handle(s), uses each once
+    (a metadata-only commit: the metadata lock is taken and released), forks the workers, then serves its own actors and
+    relays the requests for its workers' actors."""
+    import contextlib
+    import warnings
+    warnings.filterwarnings("ignore", category=DeprecationWarning)
+    _c, root, handles_mode, names, clock_ms, fine_locks, lock_mode = msg
+    import datashard
+    from datashard.storage_backend import LocalStorageBackend
+    sc = S.Scheduler()
+    sc.fine_locks = fine_locks                       # type: ignore[attr-defined]
+    sc.log_setup_locks = True                        # type: ignore[attr-defined]
+    sc.yield_filter = P.protocol_yield_filter
+    sc.clock_ms = clock_ms
+    P._CURRENT[0] = sc
+
+    def factory(tp: str) -> Any:
+        return S.instrument_backend(sc, LocalStorageBackend(tp), lock_mode=lock_mode)
+    stack = contextlib.ExitStack()
+    stack.enter_context(S.patched(sc, factory, shared_rlock=True))
+    keys = ["*"] if handles_mode == "shared" else list(names)
+    handles: Dict[str, Any] = {}
+    for k in keys:
+        t = datashard.load_table(root)
+        with t.new_transaction() as tx:          # the handle is USED before the fork: one metadata-only commit
+            tx.expire_snapshots(0)
+            tx.commit()
+        handles[k] = t
+    sc.log.clear()
+    conn.send(("ok", list(sc.locklog), os.getpid()))
+    shipped_locks = len(sc.locklog)
+    pending: List[int] = []
+    children: List[Tuple[int, Any]] = []
+    child_of: Dict[str, Any] = {}
+    while True:
+        try:
+            m = conn.recv()
+        except (EOFError, OSError):
+            break
+        try:
+            if m[0] == "fgo":
+                _c, root_specs, child_specs, clock_ms = m
+                sc.clock_ms = clock_ms
+                states: Dict[str, Dict[str, Any]] = {}
+                pids: List[int] = []
+                for specs in child_specs:
+                    pc, cc = mp.Pipe()
+                    cpid = os.fork()
+                    if cpid == 0:
+                        code = 0
+                        try:
+                            pc.close()
+                            conn.close()
+                            for _p, oc in children:
+                                oc.close()
+                            _family_child_main(cc, sc, root, specs, handles)
+                        except BaseException:       # noqa: BLE001
+                            code = 1
+                        finally:
+                            os._exit(code)
+                    cc.close()
+                    sc.locklog.append({"actor": None, "pid": os.getpid(), "handle": None, "prim": "fork", "child": cpid,
+                                       "fd": None, "ok": True, "known": True})
+                    r = _recv(pc, STEP_TIMEOUT_S, f"forked worker {cpid}")
+                    children.append((cpid, pc))
+                    pids.append(cpid)
+                    for n, st in r[1].items():
+                        states[n] = st
+                        child_of[n] = pc
+                for name, op, style in root_specs:
+                    sc.spawn(name, P.make_actor(root, op, handles.get("*", handles.get(name)), style))
+                states.update(_states(sc))
+                conn.send(("ok", states, list(sc.locklog[shipped_locks:]), pids))
+                shipped_locks = len(sc.locklog)
+            elif m[0] == "step":
+                _c, name, clock_ms = m
+                if name in child_of:
+                    child_of[name].send(m)
+                    conn.send(_recv(child_of[name], STEP_TIMEOUT_S, f"forked worker running {name}"))
+                else:
+                    conn.send(_serve_step(sc, pending, name, clock_ms))
+            elif m[0] == "end":
+                for cpid, pc in children:
+                    try:
+                        pc.send(("end",))
+                        pc.close()
+                    except Exception:       # noqa: BLE001
+                        pass
+                for cpid, _pc in children:
+                    try:
+                        os.waitpid(cpid, 0)
+                    except OSError:
+                        pass
+                conn.send(("ok",))
+                return
+            else:
+                conn.send(("error", f"unknown family command {m[0]!r}"))
+        except BaseException as e:      # noqa: BLE001
+            import traceback
+            try:
+                conn.send(("error", traceback.format_exc()[-1500:] or repr(e)))
+            except Exception:           # noqa: BLE001
+                return
+
+
+def _family_child_main(conn: Any, sc: S.Scheduler, root: str, specs: List[tuple], handles: Dict[str, Any]) -> None:
+    """A forked worker: the scheduler object, the patched library and the table handles are the copies fork() made; its
+    actors run on the INHERITED handles."""
+    pending: List[int] = []
+    for name, op, style in specs:
+        sc.spawn(name, P.make_actor(root, op, handles.get("*", handles.get(name)), style))
+    conn.send(("ok", _states(sc), os.getpid()))
+    while True:
+        try:
+            m = conn.recv()
+        except (EOFError, OSError):
+            return
+        if m[0] == "step":
+            try:
+                conn.send(_serve_step(sc, pending, m[1], m[2]))
+            except BaseException as e:      # noqa: BLE001
+                import traceback
+                conn.send(("error", traceback.format_exc()[-1500:] or repr(e)))
+        else:
+            return
 
 
 class WorkerDied(Exception):
@@ -173,6 +376,14 @@ class Pool:
 
     def __init__(self) -> None:
         self.workers: List[Worker] = []
+        self.forkserver: Optional[Worker] = None
+
+    def get_forkserver(self) -> Worker:
+        """The process that forks the parent of every process family.  It never runs a case itself, so it stays
+        single-threaded (no thread pool of a data-file library was ever started in it) and fork() from it is clean."""
+        if self.forkserver is None or not self.forkserver.alive():
+            self.forkserver = Worker(1000)
+        return self.forkserver
 
     def get(self, n: int) -> List[Worker]:
         self.workers = [w for w in self.workers if w.alive()]
@@ -183,11 +394,16 @@ class Pool:
     def discard(self, w: Worker) -> None:
         w.stop()
         self.workers = [x for x in self.workers if x is not w]
+        if self.forkserver is w:
+            self.forkserver = None
 
     def close(self) -> None:
         for w in self.workers:
             w.stop()
         self.workers = []
+        if self.forkserver is not None:
+            self.forkserver.stop()
+            self.forkserver = None
 
 
 # ------------------------------------------------------------------------------------------------- parent side
@@ -203,7 +419,7 @@ class ProcScheduler(S.Scheduler):
     def __init__(self) -> None:
         super().__init__()
         self.remote: Dict[str, Worker] = {}
-        self.shipped: Dict[int, Dict[int, dict]] = {}      # per worker: its log index -> the entry object in self.log
+        self.shipped: Dict[Any, Dict[int, dict]] = {}      # per worker process: its log index -> the entry object in self.log
 
     def spawn_remote(self, name: str, worker: Worker, st: Dict[str, Any]) -> S.Actor:
         a = S.Actor(name, lambda: None)
@@ -225,8 +441,8 @@ class ProcScheduler(S.Scheduler):
         r = w.call(("step", name, self.clock_ms))
         if r[0] == "deadlock":
             raise S.Deadlock(r[1])
-        _ok, entries, lockentries, states, n0, updates = r
-        mine = self.shipped.setdefault(id(w), {})
+        _ok, entries, lockentries, states, n0, updates = r[:6]
+        mine = self.shipped.setdefault((id(w), r[6] if len(r) > 6 else 0), {})    # log indices are per PROCESS (a family: several)
         for i, new in updates:
             mine[i].update(new)                  # same dict object as in self.log: completed in place
         for k, e in enumerate(entries):
@@ -270,8 +486,24 @@ class ProcScheduler(S.Scheduler):
                 a.state = "parked"
 
 
+def family_of(case: Dict[str, Any]) -> Optional[Dict[str, Any]]:
+    """case["fork"] checked: {"root": [...], "children": [[...], ...], "handles": "shared" | "own"} partitions the actors."""
+    fam = case.get("fork")
+    if not fam:
+        return None
+    n = len(case["ops"])
+    root, children = list(fam.get("root", [])), [list(g) for g in fam.get("children", [])]
+    if sorted(root + [i for g in children for i in g]) != list(range(n)) or not children:
+        raise ValueError(f"fork {fam} is not a placement of the {n} actors in a parent and at least one forked worker")
+    if fam.get("handles", "shared") not in ("shared", "own"):
+        raise ValueError(f"fork handles {fam.get('handles')!r}")
+    return {"root": root, "children": children, "handles": fam.get("handles", "shared")}
+
+
 def groups_of(case: Dict[str, Any]) -> List[List[int]]:
     n = len(case["ops"])
+    if case.get("fork"):
+        return [[], list(range(n))]         # the whole family is reached through one pipe (the fork server's)
     procs = [list(g) for g in (case.get("procs") or [list(range(n))])]
     if sorted(i for g in procs for i in g) != list(range(n)):
         raise ValueError(f"procs {procs} is not a partition of the {n} actors")
@@ -305,7 +537,9 @@ def run_case(scratch: str, case: Dict[str, Any], chooser_factory: Callable[[S.Sc
     nsnap = case.get("initial_snapshots", 2)
     shared = case.get("topology", "separate") == "shared"
     groups = groups_of(case)
-    workers = pool.get(len(groups) - 1)
+    fam = family_of(case)
+    workers = [pool.get_forkserver()] if fam else pool.get(len(groups) - 1)
+    family_pids: Dict[str, Any] = {}
     schema = Schema(schema_id=1, fields=[{"id": 1, "name": "x", "type": "long", "required": False}])
 
     def factory(tp: str) -> Any:
@@ -323,6 +557,24 @@ def run_case(scratch: str, case: Dict[str, Any], chooser_factory: Callable[[S.Sc
         sc.clock_ms = 1_700_000_000_000 + 10 * nsnap + (0 if clock == "frozen" else 10)
         sc.log.clear()
         sc.locklog.clear()
+        try:
+            if fam:
+                # the family's parent opens its handle(s) and USES each once (a metadata-only commit, 10 ms after the template's
+                # last one) before anything else: the table the actors start from is the one after those commits
+                w = workers[0]
+                sc.clock_ms = 1_700_000_000_000 + 10 * nsnap + 10
+                r = w.call(("fcase", root, fam["handles"], [f"A{i}" for i in range(len(case["ops"]))], sc.clock_ms,
+                            sc.fine_locks, lock_mode))      # type: ignore[attr-defined]
+                started.append(w)
+                w.pid = r[2]
+                sc.locklog.extend(r[1])
+                sc.clock_ms += 0 if clock == "frozen" else 10
+        except (WorkerDied, S.Deadlock) as e:
+            res.deadlock = "harness: " + str(e)
+            pool.discard(workers[0])
+            res.initial = P.read_table_independent(root)
+            res.final = dict(res.initial)
+            return res
         res.initial = P.read_table_independent(root)
         ops = []
         for op in case["ops"]:
@@ -334,7 +586,15 @@ def run_case(scratch: str, case: Dict[str, Any], chooser_factory: Callable[[S.Sc
         try:
             # actors are registered in index order whatever process they live in (choosers' "first enabled" is A0 < A1 < ...)
             remote_states: Dict[str, Dict[str, Any]] = {}
-            for k, g in enumerate(groups[1:]):
+            if fam:
+                w = workers[0]
+                spec = lambda i: (f"A{i}", ops[i], ops[i].get("style", "with"))      # noqa: E731
+                r = w.call(("fgo", [spec(i) for i in fam["root"]], [[spec(i) for i in g] for g in fam["children"]], sc.clock_ms))
+                sc.locklog.extend(r[2])
+                family_pids = {"parent": w.pid, "workers": list(r[3])}
+                for n, st in r[1].items():
+                    remote_states[n] = (w, st)              # type: ignore[assignment]
+            for k, g in enumerate(groups[1:] if not fam else []):
                 w = workers[k]
                 r = w.call(("case", root, [(f"A{i}", ops[i], ops[i].get("style", "with")) for i in g], shared, sc.clock_ms,
                             sc.fine_locks, lock_mode))      # type: ignore[attr-defined]
@@ -400,6 +660,8 @@ def run_case(scratch: str, case: Dict[str, Any], chooser_factory: Callable[[S.Sc
         res.log = sc.log
         res.locklog = list(sc.locklog)                    # type: ignore[attr-defined]
         res.pids = {0: os.getpid(), **{k + 1: w.pid for k, w in enumerate(workers[:len(groups) - 1])}}   # type: ignore[attr-defined]
+        if fam:
+            res.pids = {0: os.getpid(), "family": family_pids}       # type: ignore[attr-defined]
         for name, a in sc.actors.items():
             if a.error is not None:
                 tname = a.error.tname if isinstance(a.error, RemoteError) else type(a.error).__name__
